@@ -267,8 +267,10 @@ def check_layout(ctx, case, k, files, tags_api):
             return
 
 
-def parents_deleted(case, io, k, repo, digest):
-    """was an index that lists [digest] pushed to [repo] and deleted again before step k (known finding F35)?"""
+def parents_deleted(case, io, k, repo, digest, depth=0):
+    """was an index that lists [digest] pushed to [repo] and deleted again before step k (known finding F35)?  Also when the
+    index that lists [digest] is itself only recorded as the child of an index that was deleted (a grandchild loses its record
+    with its parent's)"""
     parents = {}       # digest of an accepted index listing [digest] -> tags it was pushed under
     for j in range(k):
         st, r = case["steps"][j], io["steps"][j]
@@ -285,6 +287,8 @@ def parents_deleted(case, io, k, repo, digest):
         elif st["kind"] == "mdel" and r.get("status") == 202:
             if st["arg"] in parents:
                 return True
+    if depth < 4:
+        return any(parents_deleted(case, io, k, repo, p_, depth + 1) for p_ in parents)
     return False
 
 
